@@ -13,7 +13,9 @@ the same names: this exposed a scoping defect (a function loaded on demand saw t
 known finding (`late-package-var-initializer`). After the seeded change switch clauses are sometimes empty or
 fallthrough-only.""",
 "C02": """Q 40 programs × 14 statements / T 1 500. The generator writes the XGo statement and its Go expansion side by side;
-traces (`tr`, `src`, `pr`) make evaluation order and count observable. No defect found on the unchanged tree.""",
+traces (`tr`, `src`, `pr`) make evaluation order and count observable. One defect found and fixed: in `a, b = [1, 2], [3]` every literal took
+the type of the last target (reported by a wave-7 agent as a side remark; the literal constructs now include
+assignments to typed variables, single and multiple).""",
 "C03": """Q 48 programs × 8 scenarios / T 1 600. Three defects found: `f()?` as a statement left a bare `_autoGo_1`
 statement (fixed), `a, b := two()?` was rejected (fixed), `g(two()?)` with a multi-value call is rejected (known
 finding, probe `question-operator-call-forwarded-as-arguments`: repairing it means reworking the argument/overload
@@ -27,7 +29,9 @@ per loop context. Not repaired: the repository's golden tests pin `i < _gop_end;
 so no correct lowering passes the unedited suite. Loops carry an iteration guard (marker 99999) so a runaway loop is
 reported, not suffered; the filter of the filtered loop lets the body run after 60 calls for the same reason. Three
 further loops per program have bounds written `len(x)` while the body grows `x` (the operands are evaluated once, like
-the runtime range object) — added after a second-wave seeded change was missed.""",
+the runtime range object) — added after a second-wave seeded change was missed; eight more have variable, field,
+element and dereference operands that the body assigns to (added after a wave-7 change was missed). The variable case
+failed on the unchanged tree (`n := 4; for i <- :n { n-- }` ran twice) and was repaired.""",
 "C05": """Q 40 programs × 12 literals / T 1 500. bool and sized-integer operands are rejected at compile time
 (`b.string undefined`: the documented meaning of `"${x}"` is `x.string`, which exists for int, int64, uint64,
 float64, string, error and Stringers) and are outside the domain although the property's quantifier names bools —
@@ -45,7 +49,12 @@ message classes observed are counted in the evidence (`go-rejection-class:*`).""
 declaration made WriteTo panic). A third of the cases compile with an x/typesutil recorder attached (Config.Recorder
 changes which code runs, e.g. goxRecorder.Complete in a defer) and a case kind draws unusual declaration shapes
 (overload declarations with every receiver spelling and candidate-list form) — both added after a seeded change was
-missed.""",
+missed. A further kind, decl-cycles, draws package-level declarations of every kind that refer to themselves or to each
+other from inside their own headers (a self-referential signature made a seeded change overflow the stack; token
+mutation had never produced one). At thorough size this kind found one genuine crash, recorded as known: a type that
+contains itself through an array under `unsafe.Sizeof` overflows the stack inside go/types' Sizes (gogen evaluates the
+constant; nobody rejects the invalid recursive type). Stack-overflow sites are named after the recursing functions
+(`crash:fatal error: stack overflow:in:<functions>`), so another runaway recursion is a different site.""",
 "C08": """Q 700 packages × (5 in-process + 1 other-process compilations) / T 20 000. One known finding: gogen reports
 "label X defined and not used" in map-iteration order. An ad-hoc mutant (files sorted by name length instead of
 name) is caught in all package kinds.""",
@@ -92,9 +101,13 @@ met in thorough runs).""",
 "C19": """Comment injection belongs to C21's quantifier only and was removed from C19/C20 (false alarm: a comment moved
 across a token is 'comment placement'). Parentheses, empty statements and number spelling are normalised in the
 comparison (gofmt conventions the property calls 'equal except positions').""",
-"C20": """One known finding (`format:not-idempotent:in:BlockStmt<LambdaExpr2<SliceLit`). After a seeded change was missed the
+"C20": """The one finding (a return list with lambda blocks indented differently by the second pass; first recorded as known,
+then understood through a second instance that the new compact-layout shift of the case list turned up) is repaired
+(`0d2b30f`, indentList). After a seeded change was missed the
 workload also formats *unformatted* spellings: tightened variants (optional blanks next to punctuation removed) and
-files of one-line functions whose printed width lies around the printer's 100-column limit.""",
+files of one-line functions whose printed width lies around the printer's 100-column limit; after a wave-7 change was
+missed also compact layouts: compound statements, struct types, literals and declaration groups on one source line
+or broken in unusual places, with trailing and leading comments and blank lines in between.""",
 "C21": """Known findings: `format:comment-in:EnvExpr`, and — named by root cause, not by place — a comment that the printer
 flushes directly behind a `/` operator without a blank (`new([]int)///c3`: the text gains a slash). Star-bordered block
 comments were added to the injected shapes after a second-wave seeded change was missed.""",
